@@ -69,11 +69,22 @@ def register(R: Registry):
         s.fields["g_rep"] = SArr(z3.Lambda([i], i), P.n, "int", name="rep")
         s.fields["g_dst"] = SArr(z3.K(z3.IntSort(), z3.IntVal(0)), P.n, "int", name="dst")
 
+    def init_shape(S, fr):
+        """at call sites: the constructed object gets symbolic fields of the stated size (constrained by the ensures)"""
+        obj, n = fr.vars["self"], fr.vars["node_number"]
+        nz = to_z3(n, "int")
+        obj.fields["element_parent"] = PList.fresh("int", nz, name="parent")
+        obj.fields["rank"] = PList.fresh("int", nz, name="rank")
+        obj.fields["g_rep"] = SArr.fresh("int", nz, name="rep")
+        obj.fields["g_dst"] = SArr.fresh("int", nz, name="dst")
+        return None
+
     R.add(
         f"{DSU}:DisjointSetUnion.__init__",
         prop="C18",
         setup=lambda S: dict(self=S.obj(__import__("swcgeom.utils.dsu", fromlist=["x"]).DisjointSetUnion), node_number=S.int("n")),
         requires=["node_number >= 0"],
+        returns=init_shape,
         ghost_exit=init_ghost,
         ensures=["size :: len_(self.element_parent) == node_number", wf_len,
                  "all-singletons :: forall(0, node_number, lambda i: self.g_rep[i] == i)"] + inv_clauses("inv/"),
@@ -401,3 +412,127 @@ _reg_2 = register
 def register(R):  # noqa: F811
     _reg_2(R)
     register_checker(R)
+
+
+
+# ===========================================================================
+# checker.py: has_cyclic  (client of the DisjointSetUnion contracts)
+def register_has_cyclic(R):
+    I, B = z3.IntSort(), z3.BoolSort()
+    # ghost: Conn(i, x, y) = x and y are connected by the edges {(j, pid j) : j < i, pid j != -1}, read as undirected edges
+    Conn = z3.Function("Conn", I, I, I, B)
+
+    def setup(S):
+        n = S.int("n")
+        S.assume(n.z >= 0)
+        ids, pids = S.arr("int", n=n, name="ids"), S.arr("int", n=n, name="pids")
+        i, x, y = z3.Ints("i_hc x_hc y_hc")
+        P = pids.arr
+        R_ = lambda t: z3.And(t >= 0, t < n.z)
+        S.assume(z3.ForAll([i], z3.Implies(R_(i), z3.And(z3.Select(ids.arr, i) == i, z3.Or(z3.Select(P, i) == -1, R_(z3.Select(P, i)))))))
+        # definitional recursion on the number of edges taken into account
+        S.assume(z3.ForAll([x, y], Conn(0, x, y) == (x == y)))
+        pi = z3.Select(P, i)
+        S.assume(z3.ForAll([i, x, y], z3.Implies(i >= 0, Conn(i + 1, x, y) == z3.Or(Conn(i, x, y), z3.And(pi != -1, z3.Or(z3.And(Conn(i, x, i), Conn(i, y, pi)), z3.And(Conn(i, x, pi), Conn(i, y, i))))))))
+        return dict(topology=(ids, pids))
+
+    def inv(which):
+        def f(E, v, o):
+            ids, pids = v["topology"]
+            n, P = ids.nz(), pids.arr
+            i = to_z3(v["_k0"], "int")
+            d = v["dsu"]
+            rep = d.fields["g_rep"].arr
+            x, y, j = z3.Int(fresh_name("x")), z3.Int(fresh_name("y")), z3.Int(fresh_name("j"))
+            R_ = lambda t: z3.And(t >= 0, t < n)
+            if which == "structure-is-a-valid-union-find-of-the-right-size":
+                Pl = d.fields["element_parent"]
+                return z3.And(zint(Pl.n) == n, zint(d.fields["rank"].n) == n, *[c for _, c in INV(Pl.cols[0], zint(Pl.n), rep, d.fields["g_dst"].arr)])
+            if which == "joined-exactly-when-connected-by-the-edges-so-far":
+                return z3.ForAll([x, y], z3.Implies(z3.And(R_(x), R_(y)), (z3.Select(rep, x) == z3.Select(rep, y)) == Conn(i, x, y)))
+            if which == "no-earlier-edge-closed-a-cycle":
+                return z3.ForAll([j], z3.Implies(z3.And(0 <= j, j < i, z3.Select(P, j) != -1), z3.Not(Conn(j, j, z3.Select(P, j)))))
+
+        return f
+
+    def post(E, v, o):
+        ids, pids = v["topology"]
+        n, P = ids.nz(), pids.arr
+        j = z3.Int(fresh_name("j"))
+        closes = z3.Exists([j], z3.And(0 <= j, j < n, z3.Select(P, j) != -1, Conn(j, j, z3.Select(P, j))))
+        return to_z3(v["result"], "bool") == closes
+
+    def unfold_conn(E, v):
+        """instance of the defining recursion of Conn at the edge just processed (an instance of a hypothesis: adds nothing new)"""
+        ids, pids = v["topology"]
+        P = pids.arr
+        k = to_z3(v["_k0"], "int") - 1
+        x, y = z3.Int(fresh_name("x")), z3.Int(fresh_name("y"))
+        pk = z3.Select(P, k)
+        E.assume(z3.ForAll([x, y], Conn(k + 1, x, y) == z3.Or(Conn(k, x, y), z3.And(pk != -1, z3.Or(z3.And(Conn(k, x, k), Conn(k, y, pk)), z3.And(Conn(k, x, pk), Conn(k, y, k)))))))
+
+    R.add(f"{CHK}:has_cyclic", prop="C18", setup=setup, returns="bool",
+          options=dict(hints={"loop0/preserved/joined-exactly-when-connected-by-the-edges-so-far": unfold_conn}),
+          ensures=[("true-iff-some-edge-joins-two-nodes-already-connected-by-earlier-edges", post)],
+          loops={0: dict(invariant=[(nm, inv(nm)) for nm in ("structure-is-a-valid-union-find-of-the-right-size", "joined-exactly-when-connected-by-the-edges-so-far", "no-earlier-edge-closed-a-cycle")],
+                         modifies=["dsu"])},
+          notes="an edge closing an undirected cycle among at-most-one-out-edge graphs is a directed cycle (lemma functional_cycle, argued in DESIGN, not mechanised); "
+                "ids are positions and parents are -1 or nodes (the property's quantifier)")
+
+
+_reg_3 = register
+
+
+def register(R):  # noqa: F811
+    _reg_3(R)
+    register_has_cyclic(R)
+
+
+
+# ===========================================================================
+# checker.py: is_sorted  (traverse client rule)
+def register_is_sorted(R):
+    from contracts.C04 import depth
+    from pyvc.traverse_rule import Rule
+
+    def setup(S):
+        n = S.int("n")
+        S.assume(n.z >= 1)
+        ids, pids = S.arr("int", n=n, name="ids"), S.arr("int", n=n, name="pids")
+        ids.frozen = pids.frozen = True
+        i = z3.Int("i_is")
+        P = pids.arr
+        R_ = lambda t: z3.And(t >= 0, t < n.z)
+        # the checker walks down from node 0: its domain are single-rooted acyclic tables with ids = positions (any order of rows)
+        S.assume(z3.ForAll([i], z3.Implies(R_(i), z3.Select(ids.arr, i) == i)))
+        S.assume(z3.Select(P, 0) == -1)
+        S.assume(z3.ForAll([i], z3.Implies(z3.And(i > 0, i < n.z), R_(z3.Select(P, i)))))
+        S.assume(depth(0) == 0)
+        S.assume(z3.ForAll([i], z3.Implies(z3.And(i > 0, i < n.z), z3.And(depth(i) == depth(z3.Select(P, i)) + 1, depth(i) > 0))))
+        return dict(topology=(ids, pids))
+
+    def J(E, v, ENT, LEFT, ctx):
+        x = z3.Int(fresh_name("x"))
+        ok = z3.ForAll([x], z3.Implies(z3.And(z3.Select(ENT, x), x != ctx.root), z3.Select(ctx.P, x) < x))
+        return to_z3(v["flag"], "bool") == ok
+
+    def Qe(E, v, x, val, ctx):
+        return to_z3(val, "int") == x
+
+    def post(E, v, o):
+        ids, pids = o["topology"]
+        n, P = ids.nz(), pids.arr
+        x = z3.Int(fresh_name("x"))
+        return to_z3(v["result"], "bool") == z3.ForAll([x], z3.Implies(z3.And(x > 0, x < n), z3.Select(P, x) < x))
+
+    R.add(f"{CHK}:is_sorted", prop="C18", setup=setup, returns="bool",
+          ensures=[("true-iff-every-parent-precedes-its-child", post)],
+          options=dict(traverse_rule=Rule(J, Qe=Qe, modifies=[("local", "flag", "bool")], enter_kind="int")))
+
+
+_reg_4 = register
+
+
+def register(R):  # noqa: F811
+    _reg_4(R)
+    register_is_sorted(R)
